@@ -179,7 +179,7 @@ def execute(script):
                           'counts_before': {k: v[0] for k, v in w.count_block_messages(bid).items()},
                           'greeted_before': [id(x) for x in w.greeted_bot_conns()]})
             if route == 'bulk':
-                c.send(M.DataMessage(M.DATA_BLOCK, block), in_response_to=9)
+                c.offer_block(block)            # announce, be asked, serve
             else:
                 c.send(M.DataMessage(M.DATA_BLOCK, block))
             w.trace.add(w.k.now, 'send', label, bid)
